@@ -407,9 +407,18 @@ def filter_citations(citations: List[CitationBase]) -> List[CitationBase]:
     if not citations:
         return citations
 
-    citations = list(
-        {citation.span(): citation for citation in citations}.values()
-    )
+    # de-duplicate by span; a reference citation never replaces another kind
+    # of citation found at the same place
+    by_span: dict = {}
+    for citation in citations:
+        kept = by_span.get(citation.span())
+        if (
+            kept is None
+            or not isinstance(citation, ReferenceCitation)
+            or isinstance(kept, ReferenceCitation)
+        ):
+            by_span[citation.span()] = citation
+    citations = list(by_span.values())
     sorted_citations = sorted(citations, key=lambda citation: citation.span())
     filtered_citations: List[CitationBase] = [sorted_citations[0]]
 
